@@ -48,7 +48,7 @@ fn main() {
                 eprintln!("gv: unknown property {prop}");
                 std::process::exit(2);
             };
-            let cfg = RunCfg { prop: prop.clone(), tier: tier.clone(), workers, stall_secs: std::env::var("GV_STALL").ok().and_then(|s| s.parse().ok()).unwrap_or(60), seed };
+            let cfg = RunCfg { shard: None, only_space: None, prop: prop.clone(), tier: tier.clone(), workers, stall_secs: std::env::var("GV_STALL").ok().and_then(|s| s.parse().ok()).unwrap_or(60), seed };
             let mut out = core::run_spaces(&cfg, &chk.spaces);
             if let Some(post) = chk.post.take() {
                 let t = std::time::Instant::now();
@@ -62,6 +62,25 @@ fn main() {
             }
             let code = core::finish(&chk.report, out);
             std::process::exit(code);
+        }
+        "shard" => {
+            // gv shard <prop> <tier> <space index> <i> <k>: one shard of one space, single worker
+            if args.len() < 7 {
+                usage();
+            }
+            let prop = args[2].to_uppercase();
+            let tier = args[3].clone();
+            let si: usize = args[4].parse().unwrap_or(usize::MAX);
+            let i: u64 = args[5].parse().unwrap_or(0);
+            let k: u64 = args[6].parse().unwrap_or(1);
+            let Some(chk) = props::build(&prop, &tier, seed) else { std::process::exit(2) };
+            if si >= chk.spaces.len() {
+                std::process::exit(2);
+            }
+            let cfg = RunCfg { shard: Some((i, k)), only_space: Some(si), prop, tier, workers: 1, stall_secs: std::env::var("GV_STALL").ok().and_then(|s| s.parse().ok()).unwrap_or(60), seed };
+            let out = core::run_spaces(&cfg, &chk.spaces);
+            println!("@@CTX {}", out.total.to_json());
+            std::process::exit(0);
         }
         "replay" => {
             if args.len() < 4 {
